@@ -200,4 +200,29 @@ have -> : @flat_step O nb ne T K P (xbar + d) u i = xbar + @flat_step O nb ne T 
 by rewrite IH.
 Qed.
 
+(* the same along a steady-state PATH xb (balanced growth: xb (t+1) = T xb t + K): the level run started at
+   xb k + d is the path plus the deviation run, period by period *)
+Fixpoint shift_path (xb : nat -> 'cV[F]_nb) (k : nat) (devs : seq 'cV[F]_nb) : seq 'cV[F]_nb :=
+  if devs is x :: r then (xb k.+1 + x) :: shift_path xb k.+1 r else [::].
+
+Lemma nth_shift_path xb k devs t : (t < size devs)%N ->
+  nth 0 (shift_path xb k devs) t = xb (k + t).+1 + nth 0 devs t.
+Proof.
+elim: devs k t => [|x r IH] k [|t] //=; first by rewrite addn0.
+by rewrite ltnS => /IH ->; rewrite addSnnS.
+Qed.
+
+Lemma size_shift_path xb k devs : size (shift_path xb k devs) = size devs.
+Proof. by elim: devs k => //= x r IH k; rewrite IH. Qed.
+
+Lemma flat_run_level_path (xb : nat -> 'cV[F]_nb) k d us imps : (forall t, T *m xb t + K = xb t.+1) ->
+  @flat_run O nb ne T K P (xb k + d) us imps = shift_path xb k (@flat_run O nb ne T 0 P d us imps).
+Proof.
+move=> fx; elim: us k d imps => [|u us IH] k d [|i imps] //=.
+have -> : @flat_step O nb ne T K P (xb k + d) u i = xb k.+1 + @flat_step O nb ne T 0 P d u i.
+  rewrite !flat_stepE mulmxDr addr0 -fx.
+  move: (T *m xb k) (T *m d) (P *m u) (imp_val i) => a b c e; mx_abel.
+by rewrite IH.
+Qed.
+
 End FlatRun.
